@@ -16,7 +16,7 @@ from .interp import Frame
 BUILTIN_EXC = {
     "BaseException": None, "Exception": "BaseException", "TypeError": "Exception", "ValueError": "Exception",
     "LookupError": "Exception", "KeyError": "LookupError", "IndexError": "LookupError",
-    "RuntimeError": "Exception", "NotImplementedError": "RuntimeError", "AttributeError": "Exception",
+    "RuntimeError": "Exception", "NotImplementedError": "RuntimeError", "AttributeError": "Exception", "FrozenInstanceError": "AttributeError",
     "StopIteration": "Exception", "ImportError": "Exception", "OSError": "Exception",
     "ConnectionRefusedError": "OSError", "AssertionError": "Exception", "NameError": "Exception",
     "UnboundLocalError": "NameError", "ArithmeticError": "Exception", "ZeroDivisionError": "ArithmeticError",
@@ -585,7 +585,7 @@ class Runtime:
     def setattr(self, interp, obj, name, value):
         if isinstance(obj, Obj):
             if obj.cls.kind == "dataclass" and obj.cls.frozen:
-                cls = self.builtin_class("AttributeError")
+                cls = self.builtin_class("FrozenInstanceError")       # dataclasses.FrozenInstanceError(AttributeError)
                 raise PyExc(self.make_exception(cls, ["cannot assign to field %r" % name]))
             found, v = self.class_attr(interp, obj.cls, name)
             if found and isinstance(v, PropertyObj):
